@@ -766,6 +766,18 @@ Section AlgebraProofs.
     match goal with |- context [ecdsa_ok pk ?a ?b] => destruct (ecdsa_ok pk a b) eqn:E end; [|discriminate].
     intro H. inversion H; subst. assumption.
   Qed.
+
+  (* psi / phi: the recipient accepts whatever value arrives; what protects the output is the
+     aggregator, which returns nothing that fails verification *)
+  Lemma dkls_late_only_aggregator : forall mu st id m,
+    dkls_class (dmut_fld mu) = Late ->
+    (forall c, In c (dkls_checks A) -> c_pred c st id (dapply mu m) = c_pred c st id m) /\
+    (forall pk ps r s, dkls_aggregate A ecdsa_ok rdiv pk ps = Some (r, s) -> ecdsa_ok pk r s = true).
+  Proof.
+    intros mu st id m Hc. split.
+    - intros c Hin. apply dkls_late; assumption.
+    - apply dkls_aggregate_verifies.
+  Qed.
   End Ecdsa.
 
   (* ---------------------------------------------------------------------------------- *)
